@@ -4400,6 +4400,39 @@ let run_build_item c bufs =
     EmptyString)))))))))))), (OL
     (map (fun b -> obs_write (item_write_into c (mk_buf b))) bufs))) :: []
 
+(** val obs_unchecked : (nat * bytes) wres -> obs **)
+
+let obs_unchecked = function
+| Ok a -> let (n0, b) = a in obs_write ((Ok n0), b)
+| Err e -> obs_write ((Err e), [])
+| Panic -> obs_write (Panic, [])
+| Fuel -> obs_write (Fuel, [])
+
+(** val run_helper_pad : n -> (nat * n) -> kv list **)
+
+let run_helper_pad padding buf =
+  ((String ((Ascii (true, true, true, false, true, true, true, false)),
+    EmptyString)),
+    (obs_unchecked (write_padding_unchecked padding (mk_buf buf)))) :: []
+
+(** val run_helper_hdr : n -> n -> n -> (nat * n) -> kv list **)
+
+let run_helper_hdr pt padding count buf =
+  ((String ((Ascii (true, true, true, false, true, true, true, false)),
+    EmptyString)),
+    (obs_unchecked (write_header_unchecked pt padding count (mk_buf buf)))) :: []
+
+(** val run_helper_chk : n -> kv list **)
+
+let run_helper_chk padding =
+  ((String ((Ascii (true, true, true, false, true, true, true, false)),
+    EmptyString)),
+    (obs_wres (fun _ -> OS (String ((Ascii (true, false, true, false, true,
+      true, true, false)), (String ((Ascii (false, true, true, true, false,
+      true, true, false)), (String ((Ascii (true, false, false, true, false,
+      true, true, false)), (String ((Ascii (false, false, true, false, true,
+      true, true, false)), EmptyString))))))))) (check_padding padding))) :: []
+
 type op =
 | OPad of n
 | ONtp of n
